@@ -3,6 +3,7 @@
 package eng
 
 import (
+	"bytes"
 	"encoding/json"
 	"flag"
 	"fmt"
@@ -199,7 +200,9 @@ func (r *Run) runWorkers(n int) {
 			os.Exit(3)
 		}
 		var p partial
-		if err := json.Unmarshal(b, &p); err != nil {
+		dec := json.NewDecoder(bytes.NewReader(b))
+		dec.UseNumber()
+		if err := dec.Decode(&p); err != nil {
 			fmt.Fprintln(os.Stderr, err)
 			os.Exit(3)
 		}
@@ -336,6 +339,23 @@ func PanicSite(stack string) string {
 	return "unknown"
 }
 
+// guard runs f; a panic escaping it is recorded: when it originates in the
+// repository's code it is a crash of the code under test which no oracle
+// wrapped (reported as a violation without a replayable case); otherwise it is
+// a harness error.
+func (r *Run) guard(f func()) {
+	p, stack := Catch(f)
+	if p == nil {
+		return
+	}
+	site := PanicSite(stack)
+	if site == "unknown" {
+		fmt.Fprintf(os.Stderr, "HARNESS PANIC: %v\n%s\n", p, stack)
+		os.Exit(3)
+	}
+	r.Report(&Fail{Sig: "uncaught panic " + site, What: fmt.Sprintf("code under test panics outside any oracle: %v", p), Case: nil})
+}
+
 // Par runs f(i) for i in [0,n) on all cores. f must be safe for concurrent
 // use. It stops handing out work once the run expired.
 func (r *Run) Par(n int, f func(i int)) {
@@ -360,7 +380,7 @@ func (r *Run) Par(n int, f func(i int)) {
 				if r.Expired() {
 					return
 				}
-				f(i)
+				r.guard(func() { f(i) })
 			}
 		}()
 	}
@@ -423,7 +443,7 @@ func (r *Run) finish() int {
 			continue
 		}
 		// Re-execute before believing.
-		if r.check.Replay != nil {
+		if r.check.Replay != nil && f.Case != nil {
 			raw, err := json.Marshal(f.Case)
 			if err != nil {
 				fmt.Fprintf(os.Stderr, "cannot marshal case of %s: %v\n", s, err)
@@ -576,14 +596,14 @@ func Main(checks map[string]Check) {
 	}
 	if *shard != "" {
 		fmt.Sscanf(*shard, "%d/%d", &r.shardIdx, &r.shardN)
-		c.Run(r)
+		r.guard(func() { c.Run(r) })
 		r.writePartial(*outFile)
 		os.Exit(0)
 	}
 	if c.Procs > 0 {
 		r.runWorkers(c.Procs)
 	} else {
-		c.Run(r)
+		r.guard(func() { c.Run(r) })
 	}
 	os.Exit(r.finish())
 }
